@@ -134,7 +134,6 @@ pub struct Vm {
     working_class_def: Option<ClassDef>,
     module_loader: LoadModuleFn,
     printer: NativeFn,
-    handling_exception: bool,
 }
 
 impl Vm {
@@ -159,7 +158,6 @@ impl Vm {
             module_loader: default_read_module_source,
             printer: core::print,
             working_class_def: None,
-            handling_exception: false,
         };
         vm.init_heap_allocated_data();
         vm
@@ -183,7 +181,6 @@ impl Vm {
     pub fn execute(&mut self, function: Root<ObjFunction>, args: &[Value]) -> Result<Value, Error> {
         self.ip = ptr::null();
         self.fiber = None;
-        self.handling_exception = false;
         let module = self.module(&function.module_path);
         let closure = self.new_root_obj_closure(function.as_gc(), module);
         let fiber = self.new_root_obj_fiber(closure.as_gc());
@@ -1100,7 +1097,7 @@ impl Vm {
     }
 
     fn end_finally_impl(&mut self) -> Result<(), Error> {
-        if self.handling_exception {
+        if self.active_fiber().handling_exception {
             self.unwind_stack()?;
         }
         let return_data = self.active_fiber_mut().take_return_data();
@@ -1127,7 +1124,7 @@ impl Vm {
     }
 
     fn throw_impl(&mut self) -> Result<(), Error> {
-        self.handling_exception = true;
+        self.active_fiber_mut().handling_exception = true;
         self.active_fiber_mut().error_ip = Some(self.ip);
         self.unwind_stack()
     }
@@ -1562,8 +1559,9 @@ impl Vm {
         self.push(exc_object);
         let unwound_frames = self.active_fiber().frames.len() > handler.frame_count;
         self.active_fiber_mut().frames.truncate(handler.frame_count);
-        self.handling_exception = handler.has_catch_block();
-        if !self.handling_exception {
+        let in_flight = handler.has_catch_block();
+        self.active_fiber_mut().handling_exception = in_flight;
+        if !in_flight {
             // Delivered to a catch block: the remembered throw site must not leak into the
             // report of a later, unrelated failure.
             self.active_fiber_mut().error_ip = None;
@@ -2421,7 +2419,11 @@ impl Vm {
 
     pub fn verif_state(&self) -> verif::VmState {
         let mut state = verif::VmState {
-            handling_exception: self.handling_exception,
+            handling_exception: self
+                .fiber
+                .as_ref()
+                .map(|f| f.borrow().handling_exception)
+                .unwrap_or(false),
             has_fiber: self.fiber.is_some(),
             working_class_def: self.working_class_def.is_some(),
             modules: self.modules.len(),
